@@ -117,6 +117,16 @@ def run(ctx):
         w = f["witness"]
         got = surfaces(w["text"]).get(w["surface"])
         ctx.finding_witness(fid, got != sorted(tuple(x) for x in w["expected"]))
+    # regressions of repaired defects: the reported receipts must now equal the expected ones
+    import json as _json
+    from pathlib import Path as _Path
+    for cf in sorted((_Path(__file__).resolve().parents[2] / "corpus" / "C07").glob("*.json")):
+        c = _json.loads(cf.read_text())
+        got = surfaces(c["text"]).get(c["surface"])
+        ctx.count()
+        if got != sorted(tuple(x) for x in c["expected"]):
+            ctx.property_failure({"text": c["text"], "surface": c["surface"], "expected": c["expected"], "reported": got, "corpus": cf.name},
+                                 f"{c['surface']}: receipts differ from the rewrites in the input (corpus {cf.name})")
     cases = [c for c in doccases.gen_docs(ctx, ctx.scale(500, 8000), valid_fraction=1.0) if not c[1]]
     reps = ctx.scale(3, 10)
     texts = []
@@ -149,11 +159,6 @@ def run(ctx):
                                 fids.append(PFX + "strict-write-spec-violation-as-w002")
                             if any(x[0] == "multi" for x in want):
                                 fids.append(PFX + "strict-write-multiword")
-                    if name == "octave_write(lenient).corrections" and isinstance(got, list):
-                        import re as _re
-                        sub = lambda x: _re.sub(r"([A-Za-z_][A-Za-z0-9_./\-]*)\{([A-Za-z_][A-Za-z0-9_./\-]*)\}", r"\1<\2>", x)
-                        if sorted((k, sub(o), sub(n), l, c) for k, o, n, l, c in want) == got and want != got:
-                            fids.append(PFX + "lenient-write-curly-prepass")
                     case = {"text": t, "surface": name, "expected": want, "reported": got, "doc": d}
                     for fid in (fids or [None]):
                         ctx.property_failure(case, f"{name}: receipts differ from the rewrites in the input", finding=fid)
